@@ -112,7 +112,8 @@ Same(a, b) == a.err = b.err /\ (a.err = "" => a.out = b.out)
 
 ------------------------------------------------------------------------------
 (* Part B: read streams.  A stream is Closed or [f |-> file, ln |-> next line].           *)
-(* Read-file lines are sequences of tokens "x", "lb", "rb".                               *)
+(* Read-file lines are sequences of tokens "x", "lb", "rb", optionally ended by "cm" (a   *)
+(* comment: a line that is not blank and yet delivers nothing).                           *)
 Closed == [f |-> 0, ln |-> 0]
 Delta(tk) == IF tk.t = "lb" THEN 1 ELSE IF tk.t = "rb" THEN -1 ELSE 0
 
@@ -122,6 +123,8 @@ RECURSIVE ReadLine(_, _, _, _)
 ReadLine(line, k, depth, acc) ==
   IF k > Len(line) THEN [toks |-> acc \o EolTokens(line), depth |-> depth, cut |-> FALSE]
   ELSE IF line[k].t = "rb" /\ depth = 0 THEN [toks |-> acc, depth |-> 0, cut |-> TRUE]
+  ELSE IF line[k].t = "cm" THEN ReadLine(line, k + 1, depth, acc)     \* a comment (last item of its line): no token,
+                                                                      \* and no end-line token either (EolTokens)
   ELSE ReadLine(line, k + 1, depth + Delta(line[k]), Append(acc, line[k]))
 
 \* \read on an open stream: lines are taken until braces balance.  TeX.2021.483-486: when no line
